@@ -476,6 +476,65 @@ def t10(rep):
                       "executable" % common.render(bad[0])[:60])
 
 
+def t12(rep):
+    """Foreign runtime entries that the interpreter emulates: where the emulation does not call the entry itself but a routine of
+    the compiler, and the runtime entry is a wrapper around its own copy of that routine, the two copies must be the same code,
+    types of the locals included (a byte read through `int` in one copy and through unsigned char in the other gives different
+    hashes for bytes of 0x80 and more: interpreter and executable then print different numbers)."""
+    from . import siblings
+    ff = common.extract("fint.c", all_trees=True)
+    rt = {}
+    for u in ("foam_c.c", "foam_i.c", "foam_cfp.c"):
+        for n_, fn in common.extract(u, "runtime", all_trees=True).funcs.items():
+            if "body" in fn:
+                rt[n_] = (u, fn)
+    util = {}
+    for u in ("strops.c", "util.c", "format.c"):
+        for n_, fn in common.extract(u, all_trees=True).funcs.items():
+            if "body" in fn and fn.get("file", "").endswith(u):
+                util[n_] = (u, fn)
+    n = pairs_found = 0
+    for name, fn in ff.funcs.items():
+        if "body" not in fn:
+            continue
+        for sw in walk(fn["body"]):
+            if sw["k"] != "SwitchStmt":
+                continue
+            try:
+                groups = common.switch_cases(sw)
+            except AnalysisBroken:
+                continue
+            for g in groups:
+                labs = [l[0] for l in g["labels"] if l[0] and l[0].startswith("FINT_FOREIGN_")]
+                if len(labs) != 1:
+                    continue
+                fi = labs[0][len("FINT_FOREIGN_"):]
+                n += 1
+                ic = [c.get("callee") for st in g["stmts"] for c in calls(st)
+                      if c.get("callee") and not c["callee"].startswith("fint") and c["callee"] != "_do_assert"]
+                if fi not in rt or len(ic) != 1 or ic[0] == fi or ic[0] not in util:
+                    continue
+                rbody = rt[fi][1]["body"]
+                rc = [c.get("callee") for c in calls(rbody) if c.get("callee")]
+                if len(rc) != 1 or rc[0] not in rt:
+                    continue
+                pairs_found += 1
+                a, b = util[ic[0]], rt[rc[0]]
+                r = siblings.compare(a[1], b[1], [("@", "local"), ("@", "str"), ("@", "fi")])
+                key = "emulation-same-routine:%s:%s~%s" % (fi, ic[0], rc[0])
+                if r is None:
+                    rep.ok("T12", key, sample={"interpreter": "%s (%s)" % (ic[0], a[0]), "runtime": "%s (%s)" % (rc[0], b[0])})
+                elif siblings.kind_of_difference(r) == "shape":
+                    raise AnalysisBroken("%s and %s no longer have the same shape; re-read both" % (ic[0], rc[0]))
+                else:
+                    i_, ta, la, tb, lb = r[:5]
+                    rep.violation("T12", key, "%s:%d (%s) / %s:%d (%s)" % (a[0], la, ic[0], b[0], lb, rc[0]),
+                                  "the interpreter answers the foreign call %s with %s, the executable with %s; the two are copies of "
+                                  "one routine but differ at token %d: `%s` against `%s`" % (fi, ic[0], rc[0], i_, ta, tb))
+    rep.floor("foreign entries emulated by the interpreter", n, 15)
+    rep.floor("emulations through a separate copy of the routine", pairs_found, 1)
+
+
 def run(tier, only=None):
     rep = common.Report("C03", tier, EXPLANATION)
     f_fint = common.extract("fint.c", trees=INTERP_CHAIN + ["fintInitForeignGlobValue"])
@@ -489,6 +548,7 @@ def run(tier, only=None):
     t7(rep)
     t8(rep)
     t10(rep)
+    t12(rep)
     from . import variant_dispatch
     _fg = common.extract("genc.c", all_trees=True)
     for _d, _fl in (("gccExpr", 8), ("gccCmd", 3), ("gccRef", 8)):
